@@ -2801,6 +2801,9 @@ func (uconn *UConn) ApplyPreset(p *ClientHelloSpec) error {
 	uconn.extraEcdheKeys = nil
 	uconn.extraHybridKeys = nil
 	hello := uconn.HandshakeState.Hello
+	// Config.NextProtos alone offers nothing: what is offered is what the spec's
+	// ALPN extension (if any) puts on the wire, and it fills this in when applied.
+	hello.AlpnProtocols = nil
 
 	switch len(hello.Random) {
 	case 0:
